@@ -93,7 +93,7 @@ pub struct Reader<R: Read> {
     inner: R,
     entry: RpmPayloadEntry,
     file_size: u64,
-    bytes_read: u32,
+    bytes_read: u64,
 }
 
 /// Builds metadata for one entry to be written into an archive.
@@ -312,13 +312,14 @@ impl<R: Read> Reader<R> {
                 let checksum = read_hex_u32(&mut inner)?;
 
                 // NUL-terminated name with length `name_len` (including NUL byte).
-                let mut name_bytes = vec![0u8; name_len];
-                if name_bytes.len() > 4096 {
+                // check before allocating: name_len comes from the archive
+                if name_len > 4096 {
                     return Err(io::Error::new(
                         io::ErrorKind::InvalidData,
                         "Entry name is too long",
                     ));
                 }
+                let mut name_bytes = vec![0u8; name_len];
                 inner.read_exact(&mut name_bytes)?;
                 if name_bytes.last() != Some(&0) {
                     return Err(io::Error::new(
@@ -374,7 +375,14 @@ impl<R: Read> Reader<R> {
 
         let file_size: u64 = match entry {
             RpmPayloadEntry::Cpio(ref c) => c.file_size as u64,
-            RpmPayloadEntry::Stripped(idx) => file_entries[idx as usize].size as u64,
+            // u32::MAX marks the trailer; any other index must name a file of the header
+            RpmPayloadEntry::Stripped(u32::MAX) => 0,
+            RpmPayloadEntry::Stripped(idx) => file_entries
+                .get(idx as usize)
+                .map(|entry| entry.size as u64)
+                .ok_or_else(|| {
+                    io::Error::new(io::ErrorKind::InvalidData, "Invalid stripped file index")
+                })?,
         };
 
         Ok(Reader {
@@ -396,7 +404,7 @@ impl<R: Read> Reader<R> {
     /// Finishes reading this entry and returns the underlying reader in a
     /// position ready to read the next entry (if any).
     pub fn finish(mut self) -> io::Result<R> {
-        let remaining = self.file_size - self.bytes_read as u64;
+        let remaining = self.file_size - self.bytes_read;
         if remaining > 0 {
             io::copy(&mut self.inner.by_ref().take(remaining), &mut io::sink())?;
         }
@@ -409,11 +417,11 @@ impl<R: Read> Reader<R> {
 
 impl<R: Read> Read for Reader<R> {
     fn read(&mut self, buf: &mut [u8]) -> io::Result<usize> {
-        let remaining = self.file_size as usize - self.bytes_read as usize;
-        let limit = buf.len().min(remaining);
+        let remaining = self.file_size - self.bytes_read;
+        let limit = (buf.len() as u64).min(remaining) as usize;
         if limit > 0 {
             let num_bytes = self.inner.read(&mut buf[..limit])?;
-            self.bytes_read += num_bytes as u32;
+            self.bytes_read += num_bytes as u64;
             Ok(num_bytes)
         } else {
             Ok(0)
